@@ -115,8 +115,8 @@ var verifC03Priors = []verifC03Prior{
 	{"reset-after-full", false, -2},
 	{"putget-after-full", true, -2},
 	{"reset-after-1-byte", false, 1},
-	{"putget-after-1-byte", true, 1},
-	{"reset-after-65-bytes", false, 65},
+	{"putget-after-1-byte", true, 1},     // not used by the current tiers
+	{"reset-after-65-bytes", false, 65}, // not used by the current tiers
 	{"putget-after-half+1", true, -3},
 }
 
@@ -153,7 +153,7 @@ func verifC03CutsSmall(l, capacity int) []int {
 }
 
 func verifC03CutsBig(l, capacity int) []int {
-	return verifC03Uniq([]int{0, 1, 32, 63, 64, 65, capacity / 2, l - 64, l - 33, l - 1, l}, 0, l)
+	return verifC03Uniq([]int{0, 1, 63, 64, 65, capacity / 2, l - 64, l - 1, l}, 0, l)
 }
 
 func verifC03CutsReal(l, capacity int) []int {
@@ -186,18 +186,22 @@ func verifC03Confs() []verifC03Conf {
 
 func verifC03Confs0() []verifC03Conf {
 	var confs []verifC03Conf
-	allPriors := []int{0, 1, 2, 3, 4, 5, 6}
+	allPriors := []int{0, 1, 2, 3, 6}
 	quickPriors := []int{0, 1, 2, 3}
 	pow2Desc := "0,1,31..33,63..65,95..97 and s+{-65..-63,-33..-31,-1,0,1,31..33,63..65} for s=128*2^k, 3/4cap+65, cap-129"
 	if mc.Thorough() {
-		for _, s := range []int{1, 2, 3, 4, 5, 8, 16, 32} {
+		for _, s := range []int{1, 2, 3, 4, 8, 16} {
 			confs = append(confs, verifC03Conf{segs: s, lengths: verifC03AllLengths(verifC03Cap(s)), lenDesc: "all 0..capacity",
-				cutsFn: verifC03CutsBig, cutDesc: "{0,1,32,63,64,65,cap/2,l-64,l-33,l-1,l}", priors: allPriors})
+				cutsFn: verifC03CutsBig, cutDesc: "{0,1,63,64,65,cap/2,l-64,l-1,l}", priors: allPriors})
+		}
+		for _, s := range []int{5, 32} {
+			confs = append(confs, verifC03Conf{segs: s, lengths: verifC03AllLengths(verifC03Cap(s)), lenDesc: "all 0..capacity",
+				cutsFn: verifC03CutsSmall, cutDesc: "{0,1,63,64,65,l-1,l}", priors: quickPriors})
 		}
 		confs = append(confs, verifC03Conf{segs: 128, lengths: verifC03Dense(4096, 32), lenDesc: "m-1,m,m+1 for every multiple m of 32",
-			cutsFn: verifC03CutsSmall, cutDesc: "{0,1,63,64,65,l-1,l}", priors: quickPriors})
+			cutsFn: verifC03CutsSmall, cutDesc: "{0,1,63,64,65,l-1,l}", priors: quickPriors, spans: []int{1, 2, 3}})
 		confs = append(confs, verifC03Conf{segs: 8192, lengths: verifC03Pow2(262144), lenDesc: pow2Desc,
-			cutsFn: verifC03CutsRealQuick, cutDesc: "{0,65,l-64,l}", priors: []int{0, 1, 2}, spans: []int{1, 2}})
+			cutsFn: func(l, c int) []int { return verifC03Uniq([]int{65, l - 64}, 0, l) }, cutDesc: "{65,l-64}", priors: []int{0, 2}, spans: []int{1, 2}})
 		return confs
 	}
 	for _, s := range []int{1, 2, 3, 4, 8} {
@@ -205,7 +209,7 @@ func verifC03Confs0() []verifC03Conf {
 			cutsFn: func(l, c int) []int { return verifC03Uniq([]int{0, 64, 65, l - 1}, 0, l) }, cutDesc: "{0,64,65,l-1}", priors: quickPriors})
 	}
 	confs = append(confs, verifC03Conf{segs: 16, lengths: verifC03AllLengths(512), lenDesc: "all 0..capacity",
-		cutsFn: func(l, c int) []int { return verifC03Uniq([]int{65, l - 64}, 0, l) }, cutDesc: "{65,l-64}", priors: quickPriors})
+		cutsFn: verifC03CutsRealQuick, cutDesc: "{0,65,l-64,l}", priors: quickPriors})
 	confs = append(confs, verifC03Conf{segs: 128, lengths: verifC03Pow2(4096), lenDesc: pow2Desc,
 		cutsFn: verifC03CutsRealQuick, cutDesc: "{0,65,l-64,l}", priors: []int{0, 2}, spans: []int{1, 2}})
 	confs = append(confs, verifC03Conf{segs: 8192, lengths: verifC03Pow2Quick(262144), lenDesc: "0,1,65, 8192*2^k+1 (k=0..4), cap-63, cap",
